@@ -557,6 +557,9 @@ func runProbe(c *Ctx, testing bool, base string, extra string) (exit int, timedO
 	return runProbeFor(c, "C12", testing, base, extra)
 }
 
+// probeHome, when set, is the home directory the next probe process is started with.
+var probeHome string
+
 func runProbeFor(c *Ctx, prop string, testing bool, base string, extra string, more ...string) (exit int, timedOut bool, stderr string) {
 	bin := c.Self
 	var args []string
@@ -568,6 +571,9 @@ func runProbeFor(c *Ctx, prop string, testing bool, base string, extra string, m
 	args = append(args, more...)
 	cmd := exec.Command(bin, args...)
 	cmd.Env = []string{"PATH=" + os.Getenv("PATH"), "HOME=" + os.Getenv("HOME")}
+	if probeHome != "" {
+		cmd.Env[1] = "HOME=" + probeHome
+	}
 	var eb bytes.Buffer
 	cmd.Stderr = &eb
 	cmd.Stdout = &eb
